@@ -205,7 +205,7 @@ theorem not_over_hasRoad (p : Pos) (hno : p.gameOver.1 = false) : p.hasRoad.2 = 
   | true => simp at hno
 
 /-- the groups of a well-formed position whose game is not over -/
-theorem groups_ok (p : Pos) (wf : WFBoard p) (hno : p.gameOver.1 = false) (col : Color)
+theorem groups_ok (p : Pos) (wf : RoadWF p) (hno : p.gameOver.1 = false) (col : Color)
     (hc : col = .white ∨ col = .black) : ∀ g ∈ groupsOf p col, GroupOK p.cfg.size g := by
   have hn := wf.size_ok
   have hbm := roadBits_sub p wf col
@@ -241,7 +241,7 @@ where
 
 /-- **`evaluate` returns a value** on every well-formed position (`Stacks` as long as `Height`, as `alloc`
 makes them): no index panic in `scoreGroups`, no endless loop in `Dimensions`. -/
-theorem evaluate_total (w : Weights) (p : Pos) (wf : WFBoard p) (hst : p.height.size ≤ p.stacks.size) :
+theorem evaluate_total (w : Weights) (p : Pos) (wf : RoadWF p) (hst : p.height.size ≤ p.stacks.size) :
     ∃ v, evaluate p.c w p = .ok v := by
   unfold evaluate
   cases hgo : p.gameOver.1 with
